@@ -65,6 +65,7 @@ fn real_main() -> i32 {
         "C14" => run_engine(&engines::sys::SysEngine { id: "C14" }, &opts),
         "C15" => run_engine(&engines::sys::SysEngine { id: "C15" }, &opts),
         "C10" => run_engine(&engines::sys::SysEngine { id: "C10" }, &opts),
+        "C11" => run_engine(&engines::c11_callers::C11, &opts),
         "C13" => run_engine(&engines::c13_control::C13, &opts),
         "C12" => run_engine(&engines::c12_multisig::C12, &opts),
         "C06" => run_engine(&engines::market::engines::C06, &opts),
